@@ -230,6 +230,22 @@ example : Within GQ.I 1 3 [(2, Cmp.leaf (.bs (exBS .Rx))), (1, Cmp.leaf (.ps (1 
   simp only [List.mem_cons, List.not_mem_nil, or_false] at hp
   rcases hp with rfl | rfl <;> simp [Cmp.toC01, C01.Comp.size, Leaf.size]
 
+/-- `non_unitary_circuit()`: the block it cuts out with its own `min_r` / `max_r`, embedded back at
+`min_r`, is the product of the pending unitary components -/
+theorem regroup_block [CommRing R] (I : R) (N : ℕ) (pending : List (ℕ × Cmp R))
+    (hfit : ∀ p ∈ pending, p.1 + (p.2.toC01 I).size ≤ N) :
+    embed N (pendingRange I N pending).1
+        (Group.blockMat I N (pendingRange I N pending).1
+          ((pendingRange I N pending).2 - (pendingRange I N pending).1) pending) =
+      prodList I N pending := by
+  have h2 : (pendingRange I N pending).2 ≤ N := pendingRange_le I N pending N 0 (Nat.zero_le _) hfit
+  have h1 : (pendingRange I N pending).1 ≤ N := (pendingRange_foldl I pending N 0).1
+  have hk : (pendingRange I N pending).1 +
+      ((pendingRange I N pending).2 - (pendingRange I N pending).1) ≤ N := by omega
+  unfold Group.blockMat
+  rw [prodList_embed I hk pending (pendingRange_within I N pending), block_embed hk]
+
+
 /-! ## C. permutations -/
 
 /-- `invert_permutation` returns the inverse permutation: its matrix is the (conjugate) transpose. -/
